@@ -156,6 +156,10 @@ impl Ctx {
 
     /// Writes evidence, prints verdict lines and returns the exit code.
     pub fn finish(&self, mut coverage: Value, assumptions: Vec<String>) -> i32 {
+        if self.replay_mode {
+            // a whole check re-run on behalf of `mc replay`: the caller reads the classes
+            return 0;
+        }
         let root = verif_root();
         let classes = self.violation_classes();
         let mut unknown = 0u64;
